@@ -390,6 +390,8 @@ class C09Mon(episodes.Monitor):
 class C12Mon(episodes.Monitor):
     def __init__(self, b, ctx, model):
         self.b, self.ctx, self.m = b, ctx, model
+        self.enum = Enumerator(b, cap=24) if b.layout is not None else None
+        self.tick = 0
 
     def judge(self, rec, s, ts, depth):
         if self.m is None:
@@ -398,6 +400,19 @@ class C12Mon(episodes.Monitor):
         _report(rec, "observation", self.m.observe_check(s, ts.observation), "")
         if depth >= 1:
             self.ctx.nontrivial_digest(state_digest(s))
+        # fan-out: from every fourth non-terminal state a sample of *all* kinds of actions (masked-in and masked-out,
+        # for joint spaces every value of one component) is stepped in one vmapped call and each successor's
+        # (state, observation) pair is judged too - terminal observations after illegal moves included
+        self.tick += 1
+        if self.enum is None or int(ts.step_type) == episodes.LAST or self.tick % 4:
+            return
+        mask = self.b.mask(ts)
+        items = self.enum.all_or_sample(mask, r=self.tick * 7919)
+        for (ix, agent, a), (s2, ts2) in zip(items, self.enum.run(s, items)):
+            self.ctx.evals()
+            self.ctx.count("fanout_pairs")
+            _report(rec, "observation.fanout", self.m.observe_check(s2, ts2.observation),
+                    f"after action {np.asarray(a).tolist()} from this state: ")
 
     def on_reset(self, rec, s, ts):
         self.judge(rec, s, ts, 0)
